@@ -173,7 +173,7 @@ type roundCase struct {
 	side []types.Block
 	// pre: something another peer does to the victim before the round (its operations and
 	// observations are recorded in the case)
-	pre func(c *vh.Case, reg *netx.Reg, victim *netx.Node, ip string)
+	pre func(c *vh.Case, reg *netx.Reg, victim *netx.Node, ip string, flush func())
 }
 
 func (rc *roundCase) run(ip string) *vh.Case {
@@ -224,7 +224,7 @@ func (rc *roundCase) run(ip string) *vh.Case {
 	}
 
 	if rc.pre != nil {
-		rc.pre(c, reg, victim, ip)
+		rc.pre(c, reg, victim, ip, flush)
 		flush()
 	}
 
